@@ -4,12 +4,12 @@ PROP = dict(
     extract_file="Extract/ExC14.v", extract_module="c14_model", driver_files=["drv_c14_more.ml", "drv_c14.ml"],
     go_tags=["c14", "vwire"], const_groups=["wire"],
     trusted_base=COMMON_TB,
-    rule="seeded generator, per type: values with every field on its boundary grid (0, 1, max-1, max, random) and values just beyond one limit (max+1, count+1, one over-long item, invalid bitlists); byte strings: valid encodings, one or two mutations of them (bit flip, truncation, extension, trailing zeros, one offset shifted by +-1/+-4/2/8, offsets swapped, offset set to 0/4/len/len+-1/2^31/2^32-1, all offsets shifted, insert, delete), random strings, the fixed strings 00000000 / 04000000 / 0400000000000000 / ... alone and behind the type's fixed part; one case = one line (kind, type, input, implementation observable); non-trivial = input not empty; distinct by sha1 of the line",
+    rule="seeded generator, per type: values with every field on its boundary grid (0, 1, max-1, max, random) and values just beyond one limit (max+1, count+1, one over-long item, invalid bitlists); byte strings: valid encodings, one or two mutations of them (bit flip, truncation, extension, trailing zeros, one offset shifted by +-1/+-4/2/8, offsets swapped, offset set to 0/4/len/len+-1/2^31/2^32-1, all offsets shifted, insert, delete), random strings, the fixed strings 00000000 / 04000000 / 0400000000000000 / ... alone and behind the type's fixed part; `hold` lines (encode A, keep the bytes, encode other values of the same and of other types, report A's bytes) and `redec` lines (decode X then Y into the same object, incl. the same bytes twice and longest-then-shortest); one case = one line (kind, type, input, implementation observable); non-trivial = input not empty; distinct by sha1 of the line",
     nontrivial=lambda l: not (l.split(" | ")[0].split(" ")[-1] in ("-", ".")),
     modelled=["ferranbt/fastssz v0.1.4 ReadOffset, DecodeDynamicLength, UnmarshalDynamic, DivideInt2, ValidateBitlist re-implemented in Gallina (validated by the same correspondence run)",
               "protolambda/ztyp v0.2.2 DecodingReader (Read, SubScope, Container, FixedLenContainer, List, ByteList) and EncodingWriter re-implemented in Gallina (validated by the same correspondence run)"],
     assumptions=["error class is not compared, only ok/err/panic and the returned values",
-                 "decoders are run on a fresh zero value (the append-to-existing-slice behaviour of the generated code is not modelled)"],
+                 "dec_T is a function of the bytes alone; for the decoders that are receiver-independent today (Offer, Nodes, Enrs, FindNodes, ...) a second decode into a used object is compared with it as part of the correspondence (`redec` lines, a difference is a DIFF); 30 types follow the stock fastssz/ztyp receiver convention (append to / keep the receiver's old contents; all call sites use fresh receivers) and are not compared - an observation, not a violation of the property as stated"],
     timeout={"quick": 600, "thorough": 3000},
 )
 MANIFEST = dict(
@@ -30,7 +30,7 @@ MANIFEST = dict(
           "compared with the model's literals.",
     note="Trusted: Coq kernel, extraction + OCaml driver, Go harness; model/code agreement outside the generated inputs is tested, not proved. fastssz and ztyp helpers are re-implemented "
          "in the model (validated by the same run); the zrnt payload codecs behind the Forked* wrappers are Section variables whose per-input values the harness obtains by calling the library. "
-         "Decoders are run on fresh values only. List counts near 16384 (receipts, transactions) and the 16 MiB item limit are not exercised; the 65536-witness boundary of SSZProof only in the thorough tier. Observation (not a C14 defect, not changed): "
+         "Receiver-independent decoders are also run a second time on a used object (`redec` lines, correspondence only) and encodings are held across later encodes (`hold` lines, monitor encoding-changed-by-later-encode-<Type>). List counts near 16384 (receipts, transactions) and the 16 MiB item limit are not exercised; the 65536-witness boundary of SSZProof only in the thorough tier. Observation (not a C14 defect, not changed): "
          "ForkedHistoricalSummariesWithProof has no digest switch - every fork digest is accepted. Repaired defects are status=fixed in known_findings.d/C14.json and suppress nothing.",
     technique="Coq proof (combinator lemmas for offsets/lists, generic invariants of the ztyp reader/Container/List, iff-characterisation or closed form of each decoder) + model/implementation correspondence run with property monitors",
 )
